@@ -76,6 +76,9 @@ structure Graph where
 def Graph.node (g : Graph) (n : Nat) : Node := g.nodes.getD n default
 def Graph.parents (g : Graph) (n : Nat) : List Nat := (g.node n).parents
 
+/-- parents have smaller indices (what `TreeNode.from_edges` builds from an acyclic edge list) -/
+def Graph.Topo (g : Graph) : Prop := ∀ n p, p ∈ g.parents n → p < n
+
 /-! ### Python-level helpers -/
 
 mutual
